@@ -54,20 +54,21 @@ def canonicalize_url(
     if strip_fragment:
         fragment = None
 
-    # Empty path etc.
-    if not path or path == "/":
-        if not query and not fragment:
-            path = ""
-        else:
-            path = "/"
-
     # Path normalization
-    else:
+    if path and path != "/":
         trailing_slash = path.endswith(("/", "/.", "/.."))
         path = normpath(path)
 
         if trailing_slash and path:
             path += "/"
+
+    # Empty path etc.
+    # NOTE: must happen after normalization, "/./" & "/x/.." are empty too
+    if not path or path == "/":
+        if not query and not fragment:
+            path = ""
+        else:
+            path = "/"
 
     # Quotes
     # NOTE: quoted mode also unquotes first, so that both modes agree on
